@@ -53,6 +53,7 @@ Explain(e) ==
          LET x == GExpect(e.damage) IN
          /\ Chk(x = "lines" => e.out = "lines" /\ e.got = GLines(e.content))
          /\ Chk(x = "raise" => e.out = "raise")
+         /\ Chk(e.out \in {"lines", "raise"})          \* "leak": a temporary file was left behind
          /\ UNCHANGED lbufs
 
 TInit == tid \in 1..Len(Traces) /\ el = 1 /\ lbufs = <<>> /\ pk = 0 /\ pdone = TRUE
